@@ -372,16 +372,32 @@ def has_future_annotations(tree):
 
 
 def comp_tainted(sc, x):
-    """x is a comprehension target in sc or one of its ancestors in a way that makes CPython's own
-    resolution differ from the convention "comprehension targets are bindings of the enclosing
-    scope": it is bound there only by comprehensions, or the block is a class (the comprehension is a
-    function scope of its own inside the class), or the block declares x global / nonlocal."""
+    """x is a comprehension iteration variable of sc or of one of its ancestors and CPython / supp
+    cannot be compared through the scope tree there: the tree gives a block only its bindings other than
+    comprehension variables (a comprehension variable is local to the comprehension, for CPython and -
+    since fix F53 - for supp, which keeps it in the comprehension's flow and out of the scope's locals),
+    but inside the comprehension, and behind it where supp's comp-join flow still offers the variable as
+    a possible alternative, supp reports a binding whose Name.scope is the enclosing scope. Such reads
+    are compared under the convention of the property text only (see Analysed.reads). Not tainted: the
+    block is a function that also binds x otherwise and does not declare it (then x is its local for
+    everybody)."""
     s = sc
     while s is not None:
         if x in s.comp_bound and (x not in s.plain_bound or s.kind == K_CLASS or x in s.globals or x in s.nonlocals):
             return True
         s = s.parent
     return False
+
+
+def comp_scopes(sc, x):
+    """the scopes on the chain of sc in which x is a comprehension iteration variable"""
+    res = []
+    s = sc
+    while s is not None:
+        if x in s.comp_bound:
+            res.append(s)
+        s = s.parent
+    return res
 
 
 # ------------------------------------------------------------------------------------------
@@ -605,6 +621,7 @@ class Analysed(object):
         self.run.bind_tree(self.root)
         attach_symtable(self.root, src, filename)
         self.scopes = all_scopes(self.root)
+        self.convention_bad = []
 
     def reads(self, stats):
         """yield (sc, blk, node, expected owner by symtable, owners by supp) for every compared load"""
@@ -617,6 +634,27 @@ class Analysed(object):
                     st('reads_not_visited_by_supp')
                     continue
                 why = excluded(sc, blk, x)
+                if why == 'comp_tainted':
+                    # the convention of the property text: a comprehension variable is compared as a binding
+                    # of the scope the comprehension is written in. Every owner supp reports must be what
+                    # symtable says for the read or a scope of the chain that has x as comprehension variable.
+                    st('reads_convention')
+                    allowed = [MODULE if c.kind == K_MODULE else c for c in comp_scopes(sc, x)]
+                    try:
+                        exp = st_owner_merged(blk, x)
+                    except Mismatch:
+                        exp = None
+                    got, _where = self.run.owners_at(node)
+                    for o in got:
+                        if any(o is a or o == a for a in allowed):
+                            continue
+                        if exp is not None and owner_ok([o], exp):
+                            continue
+                        self.convention_bad.append((x, (node.lineno, node.col_offset), sorted(owner_str(g) for g in got),
+                                                    '%s or %s' % (owner_str(exp), [owner_str(a) for a in allowed]),
+                                                    'read in %s (comprehension variable)' % owner_str(sc)))
+                        break
+                    continue
                 if why:
                     st('reads_excluded_' + why)
                     continue
@@ -647,7 +685,7 @@ def direct_eval(src, filename='c05.py', stats=None, analysed=None):
         if not owner_ok(got, exp):
             bad.append((node.id, (node.lineno, node.col_offset), sorted(owner_str(o) for o in got), owner_str(exp),
                         'read in %s' % owner_str(sc)))
-    return bad
+    return bad + an.convention_bad
 
 
 # ------------------------------------------------------------------------------------------
@@ -910,7 +948,8 @@ def tree_term(sc, intern):
     def ids(names):
         return nlist(sorted(intern(n) for n in names))
     kids = '[' + ';'.join(tree_term(c, intern) for c in sc.children) + ']'
-    return '(Nd (F %s %s %s %s) %s)' % (KIND_TERM[sc.kind], ids(sc.bound), ids(sc.globals), ids(sc.nonlocals), kids)
+    # fbound: the bindings of the block other than comprehension iteration variables
+    return '(Nd (F %s %s %s %s) %s)' % (KIND_TERM[sc.kind], ids(sc.plain_bound), ids(sc.globals), ids(sc.nonlocals), kids)
 
 
 def path_term(path):
@@ -975,6 +1014,7 @@ class FileCase(object):
                 continue
             seen.add(key)
             self.iq.append((sc, node.id, got))
+        self.direct_bad.extend(an.convention_bad)
         self.builtins = sorted(n for n in self.all_names() if n in builtin_names)
 
     def all_names(self):
